@@ -284,6 +284,40 @@ def closure_and_reverse(rng, ops):
     return A2, B
 
 
+def enum_sequences(universe, L):
+    """EVERY valid zigzag of exactly L arrows (or stuck earlier) over the universe, keys 0,1,2,..., values arrow//2;
+    every prefix is covered too because the comparison is made after every arrow"""
+    cells, faces, dim = universe
+    cof = {c: [d for d in cells if c in faces[d]] for c in cells}
+    out = []
+
+    def rec(present, ops, nxt):
+        if len(ops) == L:
+            out.append(list(ops))
+            return
+        moved = False
+        for c in cells:
+            if c not in present and all(f in present for f in faces[c]):
+                present[c] = nxt
+                ops.append(("I", nxt, dim[c], len(ops) // 2, [present[f] for f in faces[c]]))
+                rec(present, ops, nxt + 1)
+                ops.pop()
+                del present[c]
+                moved = True
+        for c in list(present):
+            if not any(d in present for d in cof[c]):
+                k = present.pop(c)
+                ops.append(("R", k, len(ops) // 2))
+                rec(present, ops, nxt)
+                ops.pop()
+                present[c] = k
+                moved = True
+        if not moved:
+            out.append(list(ops))
+    rec({}, [], 0)
+    return out
+
+
 def fmt_ops(ops):
     out = []
     for o in ops:
@@ -334,6 +368,8 @@ def generate(rng, tier):
     seqs = corpus_sequences()
     for style, ops in BOUNDARY_SEQS:
         seqs.append(dict(ops=ops, style=style, origin="boundary", dimmax=rng.choice([0, 1, 2]), shortest=rng.choice([0, 1, 3])))
+    for ops in enum_sequences(simplicial_universe(3, 2), 8 if thorough else 6):
+        seqs.append(dict(ops=fmt_ops(ops), style="simplicial", walk="exhaustive", origin="exhaustive", dimmax=len(ops) % 3, shortest=len(seqs) % 2))
     nrand = 12000 if thorough else 1500
     unis = {}
     for i in range(nrand):
@@ -379,7 +415,8 @@ def run_lines(binary, lines, chunk=120, workers=4):
         out = core.run_grouped_parallel(binary, gs, nchunks=workers, timeout=900, max_restarts=3)
         for (_, ans) in out:
             CRASH_BUDGET["n"] += sum(1 for a in ans if a.startswith(("CRASH", "DIED")))
-            res += ans
+            # a bare "DIED" is the fill-in of run_grouped after too many restarts of one group, not an observation
+            res += ["SKIPPED" if a == "DIED" else a for a in ans]
     return res
 
 
@@ -650,6 +687,8 @@ def check(ctx, replay=None):
                 "random one) for 8 column types; after EVERY arrow the streamed interval, the open intervals, the index diagram, the value diagrams and "
                 "the index->value table are compared with the specification; evaluations = arrows compared (+ metamorphic comparisons)")
     res.exhaustive = False
+    res.notes.append("exhaustive sub-domain this run: every valid zigzag of %d arrows (and all its prefixes) over the full triangle (3 vertices, "
+                     "3 edges, 1 triangle; a re-inserted simplex is a new cell)" % (8 if ctx.tier == "thorough" else 6))
     rs = [s for s in seqs if s["origin"] == "random"] or seqs
     res.samples = [{"style": s["style"], "ops": s["ops"][:14]} for s in rs[:6]]
     return core.finish(ctx, None, res, TRUSTED, ASSUMPTIONS, LEVEL,
